@@ -232,6 +232,40 @@ def r3(ctx):
         ctx.check("match_weeknday:month[%d]" % mp, got == {mo for mo in range(1, 13) if want(mo)}, where(m2, g), "month pattern %d matches months %s" % (mp, sorted(got)))
     up = [s for s in walk_shallow(g) if isinstance(s, ast.Assign) and isinstance(s.targets[0], ast.Tuple) and [norm(e) for e in s.targets[0].elts] == ["month_p", "week_of_month_p", "day_of_week_p"]]
     ctx.check("match_weeknday:octet-order", len(up) == 1, where(m2, g), "a BACnetWeekNDay is month, week-of-month, day-of-week in this order")
+    # date ranges: an unspecified end leaves that side open, otherwise the bounds are inclusive
+    m4, r = _fn(ctx, "match_date_range")
+    ev4 = Evaluator(prog, m4)
+    ps4 = enumerate_paths(r)
+    dpar, rpar = [a.arg for a in r.args.args][:2]
+    names = {}
+    for s in walk_shallow(r):
+        if isinstance(s, ast.Assign) and isinstance(s.targets[0], ast.Name):
+            for fld in ("startDate", "endDate"):
+                if norm(s.value) == "%s.%s[:3]" % (rpar, fld):
+                    names[fld] = s.targets[0].id
+    WILD = (255, 255, 255)
+    for start in (WILD, (110, 3, 10), (120, 6, 15)):
+        for end in (WILD, (120, 6, 15), (130, 9, 20)):
+            if start != WILD and end != WILD and start > end:
+                continue
+            got, und = set(), set()
+            dates = [(100, 1, 1), (110, 3, 9), (110, 3, 10), (120, 6, 14), (120, 6, 15), (120, 6, 16), (130, 9, 20), (130, 9, 21), (140, 12, 31)]
+            for d in dates:
+                e = {"%s[:3]" % dpar: d, "%s.startDate[:3]" % rpar: start, "%s.endDate[:3]" % rpar: end}
+                if "startDate" in names:
+                    e[names["startDate"]] = start
+                if "endDate" in names:
+                    e[names["endDate"]] = end
+                o = _outcomes(ps4, ev4, e)
+                if o == {"True"}:
+                    got.add(d)
+                elif o != {"False"}:
+                    und.add(d)
+            want = {d for d in dates if (start == WILD or d >= start) and (end == WILD or d <= end)}
+            lab = lambda t: "any" if t == WILD else "%d-%d-%d" % (t[0] + 1900, t[1], t[2])
+            ctx.check("match_date_range:range[%s..%s]" % (lab(start), lab(end)), got == want and not und, where(m4, r),
+                      "range %s..%s matches %s of the probe dates, clause 21 prescribes %s%s" % (lab(start), lab(end), sorted(lab(x) for x in got), sorted(lab(x) for x in want),
+                                                                                               "; undecided for %s" % sorted(lab(x) for x in und) if und else ""))
     # calendar entry dispatch
     m3, h = _fn(ctx, "date_in_calendar_entry")
     want = {"calendar_entry.date": "match_date", "calendar_entry.dateRange": "match_date_range", "calendar_entry.weekNDay": "match_weeknday"}
@@ -377,3 +411,24 @@ def r5(ctx):
     want = ["%s[0] + 1900" % dd, "%s[1]" % dd, "%s[2]" % dd, "%s[0]" % t2, "%s[1]" % t2, "%s[2]" % t2]
     ctx.check("datetime_to_time:fields", len(tt) == 1 and [norm(e) for e in tt[0].value.elts[:6]] == want and prog.try_const(m2, tt[0].value.elts[8]) == -1, where(m2, g),
               "the transition instant is (year+1900, month, day, hour, minute, second) in local time with DST resolved by mktime")
+
+
+@rule("C20.R6", "every value the evaluator and the matchers read was assigned on every way to the read, within the current loop iteration (no flag left over from the previous exception or entry)", floor=6, engines="definite-assignment dataflow")
+def r6(ctx):
+    from ..defassign import maybe_undefined, stale_loop_flags
+    prog = ctx.prog
+    m = prog.module(MOD)
+    fns = [(None, f) for f in m.functions.values()]
+    for c in m.classes.values():
+        fns += [(c, f) for f in c.methods.values()]
+    if len(fns) < 8:
+        raise ShapeError("local.schedule: only %d functions found" % len(fns))
+    from .common import check_names_bound
+    check_names_bound(ctx, [MOD])
+    for c, f in fns:
+        name = "%s.%s" % (c.name, f.name) if c else f.name
+        und = maybe_undefined(f)
+        stale = stale_loop_flags(f)
+        ctx.check("%s:assigned-before-read" % name, not und and not stale, where(m, (und or stale or [(None, f)])[0][1]),
+                  "; ".join(["'%s' (line %d) may be read before it is assigned" % (n, x.lineno) for n, x in und] +
+                            ["'%s' (line %d) is only assigned conditionally inside the loop at line %d: the read may see the value of the previous iteration" % (n, x.lineno, lp.lineno) for n, x, lp in stale]))
